@@ -2,9 +2,10 @@
 
 The rule instance tables of this checker were frozen from today's tree: they name the routines of the library and, where a routine
 delegates to a file-local helper that exists today (`ell`, `div_exp_coeff`, `decompose_lambda`, ...), that helper.  A maintainer who
-extracts a NEW file-local helper (internal linkage, not a member) out of a routine changes nothing about what the routine does, but
-moves the statements the rules look at to a place they do not look.  Such helpers - those that are not in BASELINE_INTERNAL - are
-therefore substituted back, exactly:
+extracts a NEW helper (a free function of any linkage, or a member function called on the caller's own object) out of a routine changes
+nothing about what the routine does, but moves the statements the rules look at to a place they do not look.  Such helpers - functions
+that are not in jpv/baseline_functions.txt, the list of the functions of the tree the tables were written for - are therefore
+substituted back, exactly:
 
   *  `helper(args);`                      -> { <locals for the by-value parameters> <body> }
   *  `x = helper(args);` / `T x = ...;`   -> <locals> <body without its final return> ; x = <returned expression>;
@@ -24,6 +25,18 @@ BASELINE_INTERNAL = {
 }
 
 _SKIP = ('t', 'l')
+_BASE = None
+
+
+def baseline():
+    """the functions the rule tables know (jpv/baseline_functions.txt, written by tools/gen_baseline.py from the tree the tables were
+    written for)"""
+    global _BASE
+    if _BASE is None:
+        import os
+        p = os.path.join(os.path.dirname(os.path.abspath(__file__)), 'baseline_functions.txt')
+        _BASE = set(x.strip() for x in open(p) if x.strip()) | BASELINE_INTERNAL
+    return _BASE
 
 
 def _pure(e):
@@ -59,9 +72,14 @@ class Inliner:
         cal = self.prog.callee(call, caller)
         if cal is None or 'body' not in cal or cal is caller:
             return None
-        if cal.get('linkage') != 'internal' or cal.get('method') or call.get('this') is not None:
+        if strip_tmpl(cal.get('qn', '')) in baseline():
             return None
-        if strip_tmpl(cal.get('qn', '')) in BASELINE_INTERNAL:
+        th = call.get('this')
+        if th is not None:
+            # a member helper: only when it is called on the caller's own object (no substitution of `this` needed)
+            if _unwrap(th).get('k') != 'this' or cal.get('virtual') or cal.get('name', '').startswith(('operator', '~')):
+                return None
+        elif cal.get('method') and not cal.get('static'):
             return None
         if not str((cal.get('l') or ('',))[0]).startswith(('src/', 'include/')):
             return None
